@@ -27,7 +27,9 @@ Definition qlen {A} (l : list A) : Q := inject_Z (Z.of_nat (length l)).
 
 (** [self._total_rate = sum(rates)], [self._mean_rate = total / len(items)] *)
 Definition total_rate (rates : list Q) : Q := py_sum rates.
-Definition mean_rate (rates : list Q) : Q := total_rate rates / qlen rates.
+(** [Qred] only normalises the representation (Qred q == q); without it the denominators of the
+    intermediate rates grow with every iteration *)
+Definition mean_rate (rates : list Q) : Q := Qred (total_rate rates / qlen rates).
 
 Fixpoint items_from (i : nat) (rates : list Q) : list witem :=
   match rates with
@@ -82,8 +84,8 @@ Fixpoint build_loop (fuel : nat) (mean : Q) (small large : list witem) (acc : li
   | S f =>
       match small, large with
       | s :: small', l :: large' =>
-          let row := RPair s (mkW (w_id l) (mean - w_rate s)) in
-          let l2 := mkW (w_id l) (w_rate l - (mean - w_rate s)) in
+          let row := RPair s (mkW (w_id l) (Qred (mean - w_rate s))) in
+          let l2 := mkW (w_id l) (Qred (w_rate l - (mean - w_rate s))) in
           if Qlt_bool (w_rate l2) mean then build_loop f mean (l2 :: small') large' (row :: acc)
           else build_loop f mean small' (l2 :: large') (row :: acc)
       | _, _ => build_finish mean small large acc
